@@ -89,6 +89,10 @@ def sched_case(case):
             # finished run; restart once with unchanged steps (must not run anything), then raise the step count
             r0 = H.run_sim(wd, inp="restart.toml")
             out["same_steps_restart"] = r0["status"]
+            if T > 1 and (T + len(sched)) % 2 == 0:
+                # ... and once with FEWER steps than already done (a legal no-op that rewrites restart.toml)
+                r1 = H.run_sim(wd, inp="restart.toml", steps=T - 1)
+                out["fewer_steps_restart"] = (r1["status"], r1.get("completed"))
             rec = Rec17()
             res3 = H.run_sim(wd, inp="restart.toml", steps=raise_to, schedule=list(sched[used:]), recorder=rec)
             if res3["status"] == "none":
